@@ -298,6 +298,20 @@ func C04(r *ck.Run) {
 						}
 					}
 				}
+				// (2b) ... and no data from outside is copied into the bucket the caller can read
+				for _, d := range inside {
+					key := strings.SplitN(d[2:], " [", 2)[0]
+					data, err := readFileMax(filepath.Join(w.Scratch, strings.TrimPrefix(key, "all:")), 1<<20)
+					if err != nil {
+						continue
+					}
+					for _, cn := range []string{canaryOther, canaryOutside, canarySecret, "adm1secretadm1secret"} {
+						if bytes.Contains(data, []byte(cn)) {
+							an = append(an, "outside-data-copied-into-bucket")
+							break
+						}
+					}
+				}
 				// (3) inside the bucket only the storage of the NAMED object may change: pre-existing objects
 				// whose key is not literally the named key stay as they were
 				if namedKey != "" || c.Param != "key" {
